@@ -120,6 +120,16 @@ func LoadProgram(repo string, patterns []string, overlay map[string][]byte, veri
 				if fn, ok := m.(*ssa.Function); ok && funcKey(fn) == fs.Key && fn.Blocks != nil {
 					p.addFunc(fn)
 				}
+				// methods of the package's named types (e.g. encoding/binary.bigEndian)
+				if tm, ok := m.(*ssa.Type); ok {
+					if named, ok := tm.Type().(*types.Named); ok {
+						for i := 0; i < named.NumMethods(); i++ {
+							if fn := prog.FuncValue(named.Method(i)); fn != nil && fn.Blocks != nil && funcKey(fn) == fs.Key {
+								p.addFunc(fn)
+							}
+						}
+					}
+				}
 			}
 		}
 	}
